@@ -208,14 +208,23 @@ def record(cfg: SepConfig, limit: int, path: str, syms: Sequence[int], chunking:
             ev("read", n, k, pkt, held_after(k))
             if k.startswith("crash"):
                 break
+            drains = 0
             while True:
                 k, pkt = _outcome_copy(consumer, None)
                 if k == "more":
                     ev("quiet", 0, "more", None, -1)
                     break
+                drains += 1
+                if drains > len(data) + 8:
+                    # more outcomes than bytes held: the consumer reports without consuming (errors must make progress); no outcome
+                    # of the specification is called "spin", so the trace is rejected at this event instead of the harness looping for ever
+                    ev("drain", 0, "spin", None, -1)
+                    break
                 ev("drain", 0, k, pkt, held_after(k))
                 if k.startswith("crash"):
                     break
+            if drains > len(data) + 8:
+                break
     else:
         bconsumer = BufferedStreamDataConsumer(BufferedStreamProtocol(serializer), 1024)
 
@@ -242,12 +251,19 @@ def record(cfg: SepConfig, limit: int, path: str, syms: Sequence[int], chunking:
             ev("read", n, k, pkt, bheld())
             if k.startswith("crash"):
                 break
+            drains = 0
             while True:
                 k, pkt = _outcome_copy(bconsumer, None)
                 if k == "more":
                     ev("quiet", 0, "more", None, -1)
                     break
+                drains += 1
+                if drains > len(data) + 8:
+                    ev("drain", 0, "spin", None, -1)
+                    break
                 ev("drain", 0, k, pkt, bheld())
+            if drains > len(data) + 8:
+                break
     events.append({"ev": "end", "n": 0, "k": "more", "data": [], "held": -1})
     return {
         "par": {"seplen": len(cfg.sep), "limit": limit, "maxread": maxread, "path": path, "faithful": False, "emptyerr": cfg.emptyerr},
